@@ -407,6 +407,25 @@ class RowSets:
                 name = f"{lc[1]} in {a[1]}"
                 self.atoms[name] = name
                 return ("var", name)
+            # ids of several frames put together (concat / list +): membership in any of them
+            parts = None
+            if a[0] == "call" and a[1][0] == "global" and a[1][1].endswith("concat") and a[2] and a[2][0][0] in ("list", "tuple"):
+                parts = list(a[2][0][1])
+            elif a[0] == "bin" and a[1] == "+":
+                parts = [a[2], a[3]]
+            if parts and lc[1] == KEY:
+                fs = []
+                for p_ in parts:
+                    while (p_[0] == "call" and p_[1][0] == "attr" and p_[1][2] in ("tolist", "to_list", "unique", "copy")) or \
+                            (p_[0] == "attr" and p_[2] == "values"):
+                        p_ = p_[1][1] if p_[0] == "call" else p_[1]
+                    pc_ = self.col_of(p_)
+                    if pc_ is None or pc_[1] != KEY:
+                        fs = None
+                        break
+                    fs.append(self.member(pc_[0]))
+                if fs:
+                    return Or(*fs)
             raise AnalysisError(f"isin argument not understood: {ir.show(arg, maxdepth=3)}")
         raise AnalysisError(f"row mask not understood: {ir.show(m, maxdepth=3)}")
 
